@@ -528,7 +528,7 @@ func (g *Gen) havocElems(st *State, arr string, et types.Type) {
 		old := g.heap(st, key, s)
 		nh := g.sc.Fresh(key, old.Sort)
 		g.heapWF(nh.S, s, g.curBase, false)
-		g.sc.Assume(fmt.Sprintf("(forall ((r Ref)) (! (or (= (rootOid r) (rootOid %s)) (= (select %s r) (select %s r))) :pattern ((select %s r))))", arr, nh.S, old.S, nh.S))
+		g.sc.Assume(fmt.Sprintf("(forall ((r Ref)) (! (or (= (elemArr r) %s) (= (select %s r) (select %s r))) :pattern ((select %s r))))", arr, nh.S, old.S, nh.S))
 		// more precise: only addresses below arr change
 		st.heaps[key] = nh
 		g.logWholeWrite(key, s, "elems:"+arr)
@@ -615,8 +615,8 @@ func (fr *Frame) execBuiltin(b *ssa.Builtin, cc *ssa.CallCommon, args []Term, c 
 
 func (fr *Frame) execAppend(cc *ssa.CallCommon, args []Term, c *blockCtx) Term {
 	g := fr.g
-	s := args[0]
-	add := args[1]
+	s := g.constFor("apps", args[0])
+	add := g.constFor("appadd", args[1])
 	st := cc.Args[0].Type().Underlying().(*types.Slice)
 	et := st.Elem()
 	if add.Sort == SStr {
@@ -630,7 +630,7 @@ func (fr *Frame) execAppend(cc *ssa.CallCommon, args []Term, c *blockCtx) Term {
 	obj := g.newObj()
 	ncap := g.sc.Fresh("appcap", SInt)
 	g.sc.Assume("(>= " + ncap.S + " " + newLen.S + ")")
-	res := g.sc.Define("app", Term{ite(fits.S,
+	res := g.constFor("app", Term{ite(fits.S,
 		fmt.Sprintf("(mkSlice (sarr %s) (soff %s) %s (scap %s))", s.S, s.S, newLen.S, s.S),
 		fmt.Sprintf("(mkSlice %s 0 %s %s)", obj, newLen.S, ncap.S)), SSlice})
 	// special case: appending exactly one element (the overwhelmingly common case: append(s, x))
@@ -658,43 +658,62 @@ func (fr *Frame) execAppend(cc *ssa.CallCommon, args []Term, c *blockCtx) Term {
 	return res
 }
 
-// copyElemsQuant: under cond, elements [0,len(src)) of dst's array equal src's elements (dst array is fresh).
-func (g *Gen) copyElemsQuant(st *State, dst, src string, et types.Type, cond string) {
+// leafGroups groups the leaf cells of element type et by heap sort.
+func (g *Gen) leafGroups(et types.Type) (sorts []string, paths map[string][]func(string) string) {
+	paths = map[string][]func(string) string{}
 	g.forLeaves(et, func(path func(string) string, lt types.Type) {
 		s := g.sortOf(lt)
+		if _, ok := paths[s]; !ok {
+			sorts = append(sorts, s)
+		}
+		paths[s] = append(paths[s], path)
+	})
+	return
+}
+
+// copyElemsQuant: under cond, elements [0,len(src)) of dst's array equal src's elements (dst array is fresh).
+func (g *Gen) copyElemsQuant(st *State, dst, src string, et types.Type, cond string) {
+	sorts, paths := g.leafGroups(et)
+	for _, s := range sorts {
 		key := g.heapKeyFor(s)
 		old := g.heap(st, key, s)
 		nh := g.sc.Fresh(key, old.Sort)
 		g.heapWF(nh.S, s, g.allocTop(), false)
 		// frame: everything outside the fresh array unchanged; inside: copied
-		g.sc.Assume(fmt.Sprintf("(forall ((r Ref)) (! (or (and %s ((_ is Elem) r) (= (ebase r) (sarr %s))) (= (select %s r) (select %s r))) :pattern ((select %s r))))",
+		g.sc.Assume(fmt.Sprintf("(forall ((r Ref)) (! (or (and %s (= (elemArr r) (sarr %s))) (= (select %s r) (select %s r))) :pattern ((select %s r))))",
 			cond, dst, nh.S, old.S, nh.S))
-		di := path(fmt.Sprintf("(Elem (sarr %s) k)", dst))
-		si := path(fmt.Sprintf("(Elem (sarr %s) (+ (soff %s) k))", src, src))
-		g.sc.Assume(implies(cond, fmt.Sprintf("(forall ((k Int)) (! (=> (and (<= 0 k) (< k (slen %s))) (= (select %s %s) (select %s %s))) :pattern ((select %s %s))))",
-			src, nh.S, di, old.S, si, nh.S, di)))
+		for _, path := range paths[s] {
+			di := path(fmt.Sprintf("(Elem (sarr %s) k)", dst))
+			si := path(fmt.Sprintf("(Elem (sarr %s) (+ (soff %s) k))", src, src))
+			g.sc.Assume(implies(cond, fmt.Sprintf("(forall ((k Int)) (! (=> (and (<= 0 k) (< k (slen %s))) (= (select %s %s) (select %s %s))) :pattern ((select %s %s))))",
+				src, nh.S, di, old.S, si, nh.S, di)))
+			sh, _ := addrShape(path("(Elem a k)"))
+			g.logWholeWrite(key, s, "shape:"+sh)
+		}
 		st.heaps[key] = nh
-		g.logWholeWrite(key, s, "")
-	})
+	}
 }
 
 // appendElemsQuant writes the elements of add after the first len(s) elements of res.
 func (g *Gen) appendElemsQuant(st *State, res, s, add string, et types.Type) {
-	g.forLeaves(et, func(path func(string) string, lt types.Type) {
-		so := g.sortOf(lt)
+	sorts, paths := g.leafGroups(et)
+	for _, so := range sorts {
 		key := g.heapKeyFor(so)
 		old := g.heap(st, key, so)
 		nh := g.sc.Fresh(key, old.Sort)
 		g.heapWF(nh.S, so, g.allocTop(), false)
-		inRange := fmt.Sprintf("(and ((_ is Elem) r) (= (ebase r) (sarr %s)) (<= (+ (soff %s) (slen %s)) (eidx r)) (< (eidx r) (+ (soff %s) (slen %s))))", res, res, s, res, res)
+		inRange := fmt.Sprintf("(and (= (elemArr r) (sarr %s)) (<= (+ (soff %s) (slen %s)) (elemIdx r)) (< (elemIdx r) (+ (soff %s) (slen %s))))", res, res, s, res, res)
 		g.sc.Assume(fmt.Sprintf("(forall ((r Ref)) (! (or %s (= (select %s r) (select %s r))) :pattern ((select %s r))))", inRange, nh.S, old.S, nh.S))
-		di := path(fmt.Sprintf("(Elem (sarr %s) (+ (soff %s) (slen %s) k))", res, res, s))
-		si := path(fmt.Sprintf("(Elem (sarr %s) (+ (soff %s) k))", add, add))
-		g.sc.Assume(fmt.Sprintf("(forall ((k Int)) (! (=> (and (<= 0 k) (< k (slen %s))) (= (select %s %s) (select %s %s))) :pattern ((select %s %s))))",
-			add, nh.S, di, old.S, si, nh.S, di))
+		for _, path := range paths[so] {
+			di := path(fmt.Sprintf("(Elem (sarr %s) (+ (soff %s) (slen %s) k))", res, res, s))
+			si := path(fmt.Sprintf("(Elem (sarr %s) (+ (soff %s) k))", add, add))
+			g.sc.Assume(fmt.Sprintf("(forall ((k Int)) (! (=> (and (<= 0 k) (< k (slen %s))) (= (select %s %s) (select %s %s))) :pattern ((select %s %s))))",
+				add, nh.S, di, old.S, si, nh.S, di))
+			sh, _ := addrShape(path("(Elem a k)"))
+			g.logWholeWrite(key, so, "shape:"+sh)
+		}
 		st.heaps[key] = nh
-		g.logWholeWrite(key, so, "")
-	})
+	}
 }
 
 // forLeaves enumerates the leaf cells of a value of type t; path maps an element address to the leaf address.
@@ -715,27 +734,29 @@ func (g *Gen) forLeaves(t types.Type, f func(path func(string) string, lt types.
 
 func (fr *Frame) execCopy(cc *ssa.CallCommon, args []Term, c *blockCtx) Term {
 	g := fr.g
-	dst, src := args[0], args[1]
+	dst, src := g.constFor("cpdst", args[0]), g.constFor("cpsrc", args[1])
 	if src.Sort == SStr {
 		g.fail("copy from string")
 	}
 	et := cc.Args[0].Type().Underlying().(*types.Slice).Elem()
 	n := g.sc.Define("copyn", Term{ite("(<= (slen "+dst.S+") (slen "+src.S+"))", "(slen "+dst.S+")", "(slen "+src.S+")"), SInt})
-	g.forLeaves(et, func(path func(string) string, lt types.Type) {
-		so := g.sortOf(lt)
+	sorts, paths := g.leafGroups(et)
+	for _, so := range sorts {
 		key := g.heapKeyFor(so)
 		old := g.heap(c.st, key, so)
 		nh := g.sc.Fresh(key, old.Sort)
 		g.heapWF(nh.S, so, g.curBase, false)
-		inRange := fmt.Sprintf("(and ((_ is Elem) r) (= (ebase r) (sarr %s)) (<= (soff %s) (eidx r)) (< (eidx r) (+ (soff %s) %s)))", dst.S, dst.S, dst.S, n.S)
+		inRange := fmt.Sprintf("(and (= (elemArr r) (sarr %s)) (<= (soff %s) (elemIdx r)) (< (elemIdx r) (+ (soff %s) %s)))", dst.S, dst.S, dst.S, n.S)
 		g.sc.Assume(fmt.Sprintf("(forall ((r Ref)) (! (or %s (= (select %s r) (select %s r))) :pattern ((select %s r))))", inRange, nh.S, old.S, nh.S))
-		di := path(fmt.Sprintf("(Elem (sarr %s) (+ (soff %s) k))", dst.S, dst.S))
-		si := path(fmt.Sprintf("(Elem (sarr %s) (+ (soff %s) k))", src.S, src.S))
-		g.sc.Assume(fmt.Sprintf("(forall ((k Int)) (! (=> (and (<= 0 k) (< k %s)) (= (select %s %s) (select %s %s))) :pattern ((select %s %s))))",
-			n.S, nh.S, di, old.S, si, nh.S, di))
+		for _, path := range paths[so] {
+			di := path(fmt.Sprintf("(Elem (sarr %s) (+ (soff %s) k))", dst.S, dst.S))
+			si := path(fmt.Sprintf("(Elem (sarr %s) (+ (soff %s) k))", src.S, src.S))
+			g.sc.Assume(fmt.Sprintf("(forall ((k Int)) (! (=> (and (<= 0 k) (< k %s)) (= (select %s %s) (select %s %s))) :pattern ((select %s %s))))",
+				n.S, nh.S, di, old.S, si, nh.S, di))
+		}
 		c.st.heaps[key] = nh
 		g.logWholeWrite(key, so, "elems:(sarr "+dst.S+")")
-	})
+	}
 	fr.syncArrView(cc.Args[0], c.st)
 	return n
 }
